@@ -623,7 +623,20 @@ func pushingWhile(w While, srcsel int, fl flags.Pass, cr compResult) bytecode.Ty
 	body := w.Body.byteCode(0, fl.Data().Pass(flags.WithDiscard(false)), cr)
 
 	if body.Src0() == bytecode.AddrInv {
-		panic("while body result is invalid in non-discarding while")
+		// the body always returns, there is no second iteration and the only
+		// way to get past the loop is a false initial condition
+		endAddr := len(*cr.CS)
+		dest := bytecode.EncodeSrc(srcsel, bytecode.AddrStck, 0)
+		if returning {
+			instr = bytecode.New(bytecode.RET) | bytecode.EncodeSrc(0, bytecode.AddrStck, 0)
+			*cr.CS = append(*cr.CS, instr)
+
+			dest = bytecode.EncodeSrc(srcsel, bytecode.AddrInv, 0)
+		}
+
+		(*cr.CS)[initJmpFAddr] |= bytecode.EncodeSrc(1, bytecode.AddrImm, endAddr-initJmpFAddr)
+
+		return dest
 	}
 
 	jumpBack := bodyAddr
